@@ -15,7 +15,7 @@ from gen.programs import INT, BOOL, STR, FLOAT, VOID, tup, fn, iter_of, arr, cel
 from props import c11, c13
 from vlib import esc_field, harness_run, sexp_parse, sexp_str
 
-THM_MODULES = ["SslModel.Thm.C01", "SslModel.Thm.C01Eval", "SslModel.Thm.C01Fn", "SslModel.Thm.C01StA", "SslModel.Thm.C01StB", "SslModel.Thm.C01StC", "SslModel.Thm.C01StD"]
+THM_MODULES = ["SslModel.Thm.C01", "SslModel.Thm.C01Eval", "SslModel.Thm.C01Fn", "SslModel.Thm.C01StA", "SslModel.Thm.C01StB", "SslModel.Thm.C01StU", "SslModel.Thm.C01StC", "SslModel.Thm.C01StD"]
 TRANSLATE_PARTS = ["scalar", "errors"]
 ANY = ("any",)
 
@@ -268,6 +268,11 @@ def fragment_types(res, rnd, n, broken_model, functions=False, stores=False):
                 res.count("%s:%s:with-match" % (label, verdict))
             if re.search(r"if \w+: ", src):
                 res.count("%s:%s:with-if-set" % (label, verdict))
+            for tag, pat in (("for", r"\bfor \w+ in "), ("destructuring", r"\(\w+(, \w+)*\) := "), ("loop", r"\b(loop|while) "),
+                             ("cell-write", r"\bc\w \S*= "), ("union-index", r"\bpua\["), ("union-tuple-access", r"\bput\.\d"),
+                             ("union-deref", r"\*puc\b"), ("union-call", r"\bpu[fgm]\("), ("union-assign", r"\bpuc = ")):
+                if stores and re.search(pat, src):
+                    res.count("%s:%s:with-%s" % (label, verdict, tag))
         if verdict == "unsup":
             continue
         accepted = isinstance(si, list) and si and si[0] == "accepted"
